@@ -1520,6 +1520,23 @@ func c09Run(r *mon.Run) {
 			text(epRegex, t, "regex: fixed patterns")
 		}
 	}
+	// patterns for which the example generator needs many attempts (word-boundary assertions between pieces
+	// that may or may not form a boundary): the retry path must be as repeatable as the first attempt
+	hi := 0
+	for _, unit := range []string{`(a|-)`, `[a ]`, `[a-c ,]`, `(?:x|\.)`, `[a-z0-9 ]+`, `\W?\w?`} {
+		for _, as := range []string{`\b`, `\B`} {
+			for k := 2; k <= 8; k++ {
+				if r.Mine(hi) {
+					text(epRegex, "/"+strings.Repeat(unit+as, k-1)+unit+"/", "regex: patterns needing many generation attempts")
+				}
+				hi++
+			}
+		}
+	}
+	for n := r.Share(r.Pick(300, 4000)); n > 0; n-- {
+		g := &c18Gen{rng: drng, assertions: true}
+		text(epRegex, "/"+g.top().src+"/", "regex: generated well-formed patterns with assertions")
+	}
 }
 
 func c09Replay(r *mon.Run, raw stdjson.RawMessage) {
@@ -1545,7 +1562,7 @@ func init() {
 		ID:                 "C09",
 		Run:                c09Run,
 		Replay:             c09Replay,
-		Rule:               "one execution of a case builds fresh objects and renders every observable result into a digest of named fields: for a project (root text, named types incl. regex types, named enum rules) the outcome of every AddRule/AddType call, then Check, Len, GetAST (JSON), Example, UsedUserTypes, OpenAPI text (accepted schemas; panics are digest content) of the root and Check/Example/OpenAPI of every registered JSchema type; for texts Enum Check/Len/Values(type,value,comment)/GetAST, RSchema Check/Len/Pattern/GetAST/first Example/OpenAPI, Document Check/Len/lexeme stream in both modes, GuessSchemaType. Errors enter with dynamic type, code, message, index/line/column/file, IncorrectUserType and rendered text. Digests must be byte-equal (i) over R=16 (quick) / 64 (thorough) executions in one process, with heap perturbation (scattered frees + GC) between them for texts that create unnamed types, (ii) in P=4 / 16 fresh processes per case started with different GOGC, GOMAXPROCS and a seeded amount of garbage (batches of <=1500 cases per child, per-field hashes compared in the child), (iii) over all k! orders of the AddType calls for k<=4 types (24 sampled orders beyond) combined with permuted AddRule calls; (iv) no field may contain a 0x... heap address that the input did not contain. Workload: every corpus literal through all entry-point families, corpus schemas with drawn types for the names they mention, generated projects of 1-9 types biased to several simultaneously broken types (check-time and load-time, each template another error), allOf parents, or rule-sets (unnamed types), key shortcuts, additionalProperties with type names, enum rules, regex types with non-JSON example bytes; every token string over a 14-token guess alphabet up to length 3 / 4 as GuessSchemaType input and as one-item enum rule; generated enum rules, JSON documents, regex patterns. distinct_nontrivial = distinct cases (hashed), each executed at least R+P times.",
+		Rule:               "one execution of a case builds fresh objects and renders every observable result into a digest of named fields: for a project (root text, named types incl. regex types, named enum rules) the outcome of every AddRule/AddType call, then Check, Len, GetAST (JSON), Example, UsedUserTypes, OpenAPI text (accepted schemas; panics are digest content) of the root and Check/Example/OpenAPI of every registered JSchema type; for texts Enum Check/Len/Values(type,value,comment)/GetAST, RSchema Check/Len/Pattern/GetAST/first Example/OpenAPI, Document Check/Len/lexeme stream in both modes, GuessSchemaType. Errors enter with dynamic type, code, message, index/line/column/file, IncorrectUserType and rendered text. Digests must be byte-equal (i) over R=16 (quick) / 64 (thorough) executions in one process, with heap perturbation (scattered frees + GC) between them for texts that create unnamed types, (ii) in P=4 / 16 fresh processes per case started with different GOGC, GOMAXPROCS and a seeded amount of garbage (batches of <=1500 cases per child, per-field hashes compared in the child), (iii) over all k! orders of the AddType calls for k<=4 types (24 sampled orders beyond) combined with permuted AddRule calls; (iv) no field may contain a 0x... heap address that the input did not contain. Workload: every corpus literal through all entry-point families, corpus schemas with drawn types for the names they mention, generated projects of 1-9 types biased to several simultaneously broken types (check-time and load-time, each template another error), allOf parents, or rule-sets (unnamed types), key shortcuts, additionalProperties with type names, enum rules, regex types with non-JSON example bytes; every token string over a 14-token guess alphabet up to length 3 / 4 as GuessSchemaType input and as one-item enum rule; generated enum rules, JSON documents, regex patterns (random symbol strings, well-formed generated patterns with \\b / \\B between pieces, and 84 patterns for which the example generator needs many attempts). distinct_nontrivial = distinct cases (hashed), each executed at least R+P times.",
 		MinNontrivialQuick: 8000, MinNontrivialThorough: 80000,
 		MaxInconclusiveFrac: 0.01,
 		Assumptions: []string{
